@@ -124,7 +124,7 @@ Theorem C14_kernprof_run_leaves_decorator_to_its_own_rules :
   forall (acts : list MainEffects.act) (s : MainEffects.St),
     MainEffects.gp (MainEffects.exec_acts MainEffects.current s acts)
     = MainEffects.user_gp acts (MainEffects.cur (MainEffects.argv s)) (MainEffects.gp s).
-Proof. exact MainEffectsProofs.decorator_under_kernprof. Qed.
+Proof. exact MainEffectsProofs.decorator_under_kernprof_gp. Qed.
 
 (* a run whose setup file enables the decorator and decorates, the program raising, then a host
    decoration: the decorator is on, with its own single profiler and one exit hook *)
